@@ -1,4 +1,5 @@
 import FrappyProofs.Lemmas.PersistReload
+import FrappyProofs.Lemmas.PersistPlace
 /-
 C17 — property theorems (nothing but property theorems and their non-vacuity examples).
 -/
@@ -640,6 +641,165 @@ theorem reload_from_this_run (env : Env P N V) (htt : env.tgt ≠ env.tmp) (ps :
 
 end loading
 
+/-! ## where the file lives: subdirectories from the equipment id, directories missing or removed at run time -/
+
+section place
+variable {N V : Type}
+
+/-- The directories never matter to `__save_params`: whatever directories exist when it is called - none at all, the
+persistent directory without the subdirectory an equipment id like `lab/cryo7` asks for, everything - the call is the
+call of the flat model (`saveStep`) at the file and its temporary neighbour, fault for fault.  So every theorem about
+saves above (`crash_atomic`, `fault_atomic`, `failed_save_retried`, `believed_on_disk`, …) holds wherever the file
+lives; the parent directory of the file exists after every call that had something to write, and no directory is ever
+lost. -/
+theorem save_same_wherever {D : Type} (same : D → D → Bool) (ser : D → List Bytes) (tgt : Path) (ds : List Path)
+    (believed data : D) (fault : Option Fault) :
+    let o := saveStepAt same ser tgt ds believed data fault
+    o.1 = saveStep same ser tgt (tmpFile tgt) believed data fault ∧
+    (same data believed = false → parentDir tgt ∈ o.2) ∧ (∀ d ∈ ds, d ∈ o.2) := by
+  intro o
+  simp only [o, saveStepAt, saveStep]
+  split
+  · rename_i h
+    refine ⟨rfl, ?_, fun d hd => hd⟩
+    intro h'
+    rw [h] at h'; cases h'
+  · rw [saveRunAt_of_mem (mem_ensureDir ds (parentDir tgt))]
+    exact ⟨rfl, fun _ => mem_ensureDir ds _, subset_ensureDir ds _⟩
+
+/-- A missing directory never prevents saving: for every equipment id and module name, every set of existing
+directories (`ds`, possibly empty: even the log directory is gone), every content of the tree: a save that has
+something to write and meets no I/O failure returns normally, the complete new snapshot is at the place derived from
+equipment id and module name, nothing is left at the temporary name, the snapshot counts as saved, and the directory
+of the file exists. -/
+theorem missing_dir_never_prevents_saving {D : Type} (same : D → D → Bool) (ser : D → List Bytes) (eq mod : String)
+    (ds : List Path) (fs : FS Path) (believed data : D) (hdiff : same data believed = false) :
+    let tgt := persistentFile eq mod
+    let o := saveStepAt same ser tgt ds believed data none
+    o.1.raised = false ∧ applyEvs fs o.1.evs tgt = some (ser data).flatten ∧
+      applyEvs fs o.1.evs (tmpFile tgt) = none ∧ o.1.believed = data ∧ parentDir tgt ∈ o.2 := by
+  intro tgt o
+  obtain ⟨h1, h2, _⟩ := save_same_wherever same ser tgt ds believed data none
+  have htt : tgt ≠ tmpFile tgt := fun h => tmpFile_ne tgt h.symm
+  obtain ⟨hev, hren, hra⟩ := saveRun_none tgt (tmpFile tgt) (ser data)
+  obtain ⟨f1, f2, _⟩ := saveRun_final htt (ser data) none fs
+  have ho : o.1 = ⟨data, (saveRun tgt (tmpFile tgt) (ser data) none).evs, false⟩ := by
+    rw [show o.1 = _ from h1]; simp [saveStep, hdiff, hren, hra]
+  rw [ho]
+  exact ⟨rfl, f2 hren, f1 rfl, rfl, h2 hdiff⟩
+
+/-- The model satisfies the clause `SavedWherever` of the specification: for every equipment id, module name, set of
+existing directories and content of the tree, what can be seen of a call of `__save_params` that meets no I/O failure -
+raised?, number of file operations, the listing of the two places it works on - is accepted: it does not raise, and if it
+touched the file system the complete new snapshot is at the derived place and nothing else is listed. -/
+theorem model_saved_wherever {D : Type} (same : D → D → Bool) (ser : D → List Bytes) (eq mod : String)
+    (ds : List Path) (fs : FS Path) (believed data : D) :
+    let tgt := persistentFile eq mod
+    let o := saveStepAt same ser tgt ds believed data none
+    SavedWherever eq mod (ser data).flatten
+      ⟨o.1.raised, o.1.evs.length, treeOf (applyEvs fs o.1.evs) [tgt, tmpFile tgt]⟩ := by
+  intro tgt o
+  cases hs : same data believed
+  · obtain ⟨h1, h2, h3, _, _⟩ := missing_dir_never_prevents_saving same ser eq mod ds fs believed data hs
+    refine ⟨h1, fun _ => ?_⟩
+    have ht : treeOf (applyEvs fs o.1.evs) [tgt, tmpFile tgt] = [(tgt, (ser data).flatten)] := by
+      simp only [treeOf, List.filterMap_cons, List.filterMap_nil]
+      rw [show applyEvs fs o.1.evs tgt = some (ser data).flatten from h2,
+        show applyEvs fs o.1.evs (tmpFile tgt) = none from h3]
+      rfl
+    show InPlace eq mod (ser data).flatten (treeOf (applyEvs fs o.1.evs) [tgt, tmpFile tgt])
+    rw [ht]
+    refine ⟨by simp [List.lookup, tgt], ?_⟩
+    intro e he
+    simp only [List.mem_singleton] at he
+    rw [he]
+  · have ho : o.1 = ⟨believed, [], false⟩ := by simp [o, saveStepAt, hs]
+    rw [ho]
+    exact ⟨rfl, fun h => absurd h (by simp)⟩
+
+/-- the monitor decides the clause -/
+theorem savedWhereverB_iff (eq mod : String) (new : Bytes) (o : PlaceObs) :
+    savedWhereverB eq mod new o = true ↔ SavedWherever eq mod new o := by
+  simp [savedWhereverB]
+
+/-- What the two lines 156-157 are there for: the same call *without* them, in a tree where the directory of the file
+does not exist, raises and leaves nothing - for ever, since the next call meets the same tree. -/
+theorem without_directory_nothing_is_saved (tgt : Path) (ds : List Path) (hmiss : parentDir tgt ∉ ds)
+    (chunks : List Bytes) (fault : Option Fault) (fs : FS Path) :
+    let r := saveRunAt ds tgt (tmpFile tgt) chunks fault
+    r.raised = true ∧ r.renamed = false ∧ applyEvs fs r.evs tgt = fs tgt := by
+  intro r
+  have htt : tgt ≠ tmpFile tgt := fun h => tmpFile_ne tgt h.symm
+  have hr : r = saveRun tgt (tmpFile tgt) chunks (some noDirFault) := saveRunAt_of_not_mem hmiss chunks fault
+  obtain ⟨_, _, f3⟩ := saveRun_final htt chunks (some noDirFault) fs
+  rw [hr]
+  have hren : (saveRun tgt (tmpFile tgt) chunks (some noDirFault)).renamed = false := by simp [saveRun, noDirFault]
+  exact ⟨saveRun_not_renamed _ _ _ _ hren, hren, f3 hren⟩
+
+/-- A missing directory never prevents start-up: for every equipment id (subdirectories included), every set of
+existing directories and every content of the tree - in particular no file, because its directory does not exist -
+module creation on a healthy file system returns normally, `<logdir>/persistent` exists afterwards, and if there was
+anything to save the complete snapshot of the start values is at its place, in an existing directory. -/
+theorem missing_dir_never_prevents_startup {P : Type} (env0 : Env P N V) (eq mod : String) (ps : List (Param V))
+    (wd0 : List (String × V)) (ds : List Path) (fs : FS Path) :
+    let env := env0.placed eq mod
+    let o := startUpAt env ds ps wd0 fs none
+    o.1.raised = false ∧ persistentDir ∈ o.2 ∧
+      (o.1.evs ≠ [] →
+        applyEvs fs o.1.evs (persistentFile eq mod) = some (env.ser (exportAll env o.1.ms.params)).flatten ∧
+        applyEvs fs o.1.evs (tmpFile (persistentFile eq mod)) = none ∧ parentDir (persistentFile eq mod) ∈ o.2) := by
+  intro env o
+  have htt : env.tgt ≠ env.tmp := fun h => tmpFile_ne (persistentFile eq mod) h.symm
+  have hpd : persistentDir ∈ mkdirs ds persistentDir := List.mem_append_right _ (mem_prefixes_self _)
+  have hparams := startUp_params env ps wd0 (fs env.tgt) none
+  simp only [o, startUpAt, startUp, doSave, saveStep, dirsAfter] at hparams ⊢
+  split
+  · simp [hpd]
+  · rename_i hs
+    obtain ⟨hev, hren, hra⟩ := saveRun_none env.tgt env.tmp
+      (env.ser (exportAll env (ps.map (startParam (loadEntries ps env.imp (loadRaw env.parse (fs env.tgt)))))))
+    obtain ⟨f1, f2, _⟩ := saveRun_final htt
+      (env.ser (exportAll env (ps.map (startParam (loadEntries ps env.imp (loadRaw env.parse (fs env.tgt))))))) none fs
+    have hne := saveRun_evs_ne_nil env.tgt env.tmp
+      (env.ser (exportAll env (ps.map (startParam (loadEntries ps env.imp (loadRaw env.parse (fs env.tgt))))))) none
+    refine ⟨hra, ?_, fun _ => ⟨f2 hren, f1 rfl, ?_⟩⟩
+    · simp only [List.isEmpty_iff, hne, if_false]
+      exact subset_ensureDir _ _ _ hpd
+    · simp only [List.isEmpty_iff, hne, if_false]
+      exact mem_ensureDir _ _
+
+/-- Directories removed while the module runs: in **any** state of module, files and directories, after the tree
+below any directory `d` has been removed behind the module's back (the persistent file and its directory with it, or
+the whole log directory), a `saveParameters()` that is not deferred, has something to write and meets no I/O failure
+returns normally and leaves the complete snapshot of the current values at its place, in an existing directory.
+(If it has nothing to write - the values are those it wrote last - it does nothing: the code does not notice that its
+file was taken away; the statement does not ask for that.) -/
+theorem saved_after_directory_removed {P : Type} (env0 : Env P N V) (eq mod : String) (w : PWorld N V) (d : Path)
+    (hwd : w.ms.writeDict = []) :
+    let env := env0.placed eq mod
+    let w1 := (PWorld.step env w (.wipe d)).2
+    let s := PWorld.step env w1 (.act .save none)
+    s.1.raised = false ∧
+      (env.same (exportAll env w.ms.params) w.ms.believed = false →
+        s.2.fs (persistentFile eq mod) = some (env.ser (exportAll env w.ms.params)).flatten ∧
+        s.2.fs (tmpFile (persistentFile eq mod)) = none ∧ parentDir (persistentFile eq mod) ∈ s.2.dirs ∧
+        s.2.ms.believed = exportAll env w.ms.params) := by
+  intro env w1 s
+  have htt : env.tgt ≠ env.tmp := fun h => tmpFile_ne (persistentFile eq mod) h.symm
+  obtain ⟨hev, hren, hra⟩ := saveRun_none env.tgt env.tmp (env.ser (exportAll env w.ms.params))
+  obtain ⟨f1, f2, _⟩ := saveRun_final htt (env.ser (exportAll env w.ms.params)) none (wipeFiles w.fs d)
+  have hne := saveRun_evs_ne_nil env.tgt env.tmp (env.ser (exportAll env w.ms.params)) none
+  simp only [s, w1, PWorld.step, act, saveParameters, hwd, List.isEmpty_nil, if_true, doSave, saveStep, dirsAfter]
+  by_cases hs : env.same (exportAll env w.ms.params) w.ms.believed = true
+  · simp [hs]
+  · simp only [hs, if_false]
+    refine ⟨hra, fun _ => ⟨f2 hren, f1 rfl, ?_, ?_⟩⟩
+    · simp only [List.isEmpty_iff, hne, if_false]
+      exact mem_ensureDir _ _
+    · simp [hren]
+
+end place
+
 /-! ## non-vacuity -/
 
 /-- a concrete save: old snapshot `[1]`, new snapshot `[2,3,4]` written as chunks `[2] [3,4]`; the fault
@@ -848,5 +1008,53 @@ example :
     applyEvs fs1 r2.evs 0 = some [2, 3, 4] ∧ applyEvs fs1 r2.evs 1 = none := by
   refine ⟨by decide +kernel, by decide +kernel, by decide +kernel, by decide +kernel, ?_, by decide +kernel, by decide +kernel⟩
   exact double_fault_target_complete 0 1 (by decide) [2, 3, 4] [[2, 3], [4]] rfl _ _
+
+/-! ### where the file lives -/
+
+/-- the file name derivation on concrete ids: a plain id, an id with a subdirectory, superfluous separators -/
+example : persistentFile "eq" "m" = ["persistent", "eq.m.json"] ∧
+    persistentFile "lab/cryo7" "m" = ["persistent", "lab", "cryo7.m.json"] ∧
+    persistentFile "a//b/./c.d" "mod" = ["persistent", "a", "b", "c.d.mod.json"] ∧
+    tmpFile (persistentFile "lab/cryo7" "m") = ["persistent", "lab", "cryo7.m.json.tmp"] ∧
+    parentDir (persistentFile "lab/cryo7" "m") = ["persistent", "lab"] := by
+  decide +kernel
+
+/-- `missing_dir_never_prevents_saving` on a concrete instance: equipment id `lab/cryo7`, only the log directory and
+`persistent` exist (what `__init__` leaves at the first start): the save creates `persistent/lab`, performs its five
+operations and the snapshot is in place; and `without_directory_nothing_is_saved`: the bare writing part in that tree
+raises after a failed `open` and leaves no file -/
+example :
+    let same : Nat → Nat → Bool := fun a b => a == b
+    let ser : Nat → List Bytes := fun d => [[d.toUInt8]]
+    let tgt := persistentFile "lab/cryo7" "m"
+    let ds : List Path := [[], ["persistent"]]
+    let fs : FS Path := fun _ => none
+    let o := saveStepAt same ser tgt ds 7 8 none
+    let r := saveRunAt ds tgt (tmpFile tgt) (ser 8) none
+    o.1.raised = false ∧ o.1.evs.length = 5 ∧ applyEvs fs o.1.evs tgt = some [8] ∧ ["persistent", "lab"] ∈ o.2 ∧
+      r.raised = true ∧ r.evs.length = 2 ∧ applyEvs fs r.evs tgt = none := by
+  decide +kernel
+
+/-- the tree is removed while the module runs: module `a = 9` believes `{a: 5}` to be on disk, `persistent` is wiped
+(file and directory gone), the next `saveParameters()` puts the directory back and `{a: 9}` in place (from
+`saved_after_directory_removed`, whose hypotheses hold for this state) -/
+example :
+    let env := exEnv.placed "lab/cryo7" "m"
+    let ms : MState Nat Nat := ⟨[⟨"a", true, true, false, true, true, 9⟩], [], [("a", .num 5)], [("a", 1)], ["a"]⟩
+    let w : PWorld Nat Nat := ⟨ms, fun p => if p = env.tgt then some (exEnv.ser [("a", .num 5)]).flatten else none,
+      [[], ["persistent"], ["persistent", "lab"]]⟩
+    let w1 := (PWorld.step env w (.wipe ["persistent"])).2
+    let s := PWorld.step env w1 (.act .save none)
+    w1.fs env.tgt = none ∧ w1.dirs = [[]] ∧ s.1.raised = false ∧
+      s.2.fs (persistentFile "lab/cryo7" "m") = some (env.ser (exportAll env ms.params)).flatten ∧
+      parentDir (persistentFile "lab/cryo7" "m") ∈ s.2.dirs := by
+  intro env ms w w1 s
+  have hdiff : env.same (exportAll env w.ms.params) w.ms.believed = false := by decide +kernel
+  have h := saved_after_directory_removed exEnv "lab/cryo7" "m" w ["persistent"] rfl
+  obtain ⟨h1, h2⟩ := h
+  obtain ⟨h3, _, h5, _⟩ := h2 hdiff
+  refine ⟨?_, ?_, h1, h3, h5⟩
+  · decide +kernel
+  · decide +kernel
 
 end Frappy.Props.C17
